@@ -19,6 +19,10 @@ fn main() {
         .filter_map(|a| a.split_once('=').map(|(k, v)| (k.to_string(), v.to_string())))
         .collect();
     silence_panics();
+    if mode == "lextrace" {
+        fe_lexer::record_lextrace(&args[2], &args[3], &opts);
+        return;
+    }
     let cases = read_cases(&args[2]);
     if cases.is_empty() {
         eprintln!("no cases in {}", args[2]);
